@@ -145,6 +145,19 @@ func runCheck(args []string) int {
 		results = append(results, e.VerifyFunc(f))
 	}
 	e.Discharge(results, eng.SolveOpts{OutDir: outDir, TimeoutMS: timeout, CrossCheck: tier == "thorough"})
+	// every lemma that was used as a summary of a nested type must itself be verified by this check
+	var missingLemmas []string
+	for _, l := range e.UsedLemmas {
+		found := false
+		for _, f := range funcs {
+			if f == l {
+				found = true
+			}
+		}
+		if !found {
+			missingLemmas = append(missingLemmas, l)
+		}
+	}
 
 	findings := loadFindings(filepath.Join(verifDir, "known_findings.txt"))
 	known := map[string]finding{}
@@ -197,6 +210,10 @@ func runCheck(args []string) int {
 	solverCount := map[string]int{}
 	var samples []interface{}
 	var vacuity []string
+	for _, l := range missingLemmas {
+		total++
+		report(l+"#lemma", "a nested type was summarised by this round-trip lemma, but the lemma function is not verified by this check", "", nil)
+	}
 	for _, fr := range results {
 		for _, er := range fr.Errors {
 			total++
